@@ -207,6 +207,11 @@ def cases(seed, tier):
         if pausables and rng.random() < 0.25:
             p = rng.choice(pausables)
             c["devices"][p].setdefault("faults", {})[f"pause#{rng.choice([0, 0, 1])}"] = {"kind": "raise", "exc": "NoReplayAllowed"}
+        elif pausables and rng.random() < 0.25:
+            # a Pausable device whose resume() fails once: RE.resume() raises, the engine stays paused, and the next
+            # RE.resume() still replays everything since the checkpoint
+            p = rng.choice(pausables)
+            c["devices"][p].setdefault("faults", {})[f"resume#{rng.choice([0, 0, 1])}"] = {"kind": "raise", "exc": "RuntimeError"}
         yield c
 
 
